@@ -35,15 +35,15 @@ Example C10_diff_example :
           (CAdd (CMul (CMul (CE (ENum (NInt 1)))
                          (CMul (CMul (CE (ENum (NInt 2))) (CPow (CE sx) (CSub (CE (ENum (NInt 2))) (CE (ENum (NInt 1))))))
                                (CE (ENum (NInt 1)))))
-                      (CPow (CE (EF1 TC_Sin sx)) (CE (ENum (NRat 1 2)))))
+                      (CE (EMul (NInt 1) [(EF1 TC_Sin sx, ENum (NRat 1 2))])))
                 (CMul (CMul (CE (ENum (NInt 1)))
                          (CMul (CMul (CE (ENum (NRat 1 2)))
                                      (CPow (CE (EF1 TC_Sin sx)) (CSub (CE (ENum (NRat 1 2))) (CE (ENum (NInt 1))))))
                                (CMul (CFn Fcos [CE sx]) (CE (ENum (NInt 1))))))
-                      (CPow (CE sx) (CE (ENum (NInt 2)))))))
+                      (CE (EMul (NInt 1) [(sx, ENum (NInt 2))])))))
        (CMul (CE (ENum (NInt 2)))
           (CMul (CDiv (CE (ENum (NInt 1))) (CE (EMul (NInt 1) [(sy, ENum (NInt 1)); (sx, ENum (NInt 1))])))
-                (CMul (CMul (CE (ENum (NInt 1))) (CE (ENum (NInt 1)))) (CPow (CE sy) (CE (ENum (NInt 1))))))).
+                (CMul (CMul (CE (ENum (NInt 1))) (CE (ENum (NInt 1)))) (CE (EMul (NInt 1) [(sy, ENum (NInt 1))]))))).
 Proof. vm_compute. reflexivity. Qed.
 
 (* x absent: the guard and the hypothesis hold, the result is the literal 0 *)
